@@ -19,7 +19,7 @@ PRODUCERS = [q for q, (_, role) in O.QUERIES.items() if role == "P"]
 CONSUMERS = [q for q, (_, role) in O.QUERIES.items() if role in ("C", "X")]
 EXPORTS = [q for q, (_, role) in O.QUERIES.items() if role == "X"]
 ISOLATED_SHARE = 0.25
-FORK_OPS = ["deepcopy", "deepcopy", "pickle", "pickle", "reload", "reload", "derive_P1", "derive_cif", "derive_res", "derive_supercell", "stranger", "stranger", "other", "other", "drop"]
+FORK_OPS = ["deepcopy", "deepcopy", "pickle", "pickle", "reload", "reload", "derive_P1", "derive_cif", "derive_res", "derive_supercell", "stranger", "stranger", "stranger_kw", "stranger_kw", "other", "other", "drop"]
 RADII = [1.5, 3.0, 3.8, 6.0, 9.0]
 BOUNDS = [
     [[-1, -1, -1], [1, 1, 1]],
@@ -42,8 +42,14 @@ def gen_args(rng, large=False):
     the runs take the round values above, the others draw freely: radii from
     bond lengths to 12 A (the Hirshfeld default), any slab corner pair within
     +-2 cells, any origin, supercells up to 3 along an axis."""
+    kw = rng.choice([
+        {"tolerance": 0.25, "covalent_radii": {"8": 1.3}},
+        {"tolerance": 0.4, "covalent_radii": {"1": 0.6, "6": 0.95}},
+        {"tolerance": 0.55, "covalent_radii": {"7": 1.1, "8": 0.5}},
+    ])
     if rng.random() < 0.5:
         return {
+            "kw": kw,
             "r": rng.choice(RADII[:3] if large else RADII),
             "origin": [rng.choice([0.0, 0.3, -0.7, 1.4, 0.5]) for _ in range(3)],
             "bounds": rng.choice(BOUNDS),
@@ -58,6 +64,7 @@ def gen_args(rng, large=False):
     if not large and rng.random() < 0.5:
         size[rng.randrange(3)] = 2
     return {
+        "kw": kw,
         "r": round(rng.uniform(1.0, 4.5 if large else 12.0), 3),
         "origin": [round(rng.uniform(-1.5, 2.5), 4) for _ in range(3)],
         "bounds": [lo, hi],
@@ -155,6 +162,8 @@ def choose_step(rng, cfg, fb, sim):
     r -= cfg["p_fork"]
     if r < cfg["p_fault"]:
         return _fault_step(rng, cfg, hi, sim)
+    if sim.kw[hi]:
+        return {"h": hi, "op": rng.choice(sorted(O.KW_QUERIES) * 2 + O.KW_SAFE)}
     pool = list(cfg["queries"]) + list(cfg["slow"])
     h = sim.world[hi]
     if "cif_data" in h.properties and rng.random() < 0.3:
@@ -166,7 +175,14 @@ def audit_for(rng, cfg, sim):
     """End-of-run audit: a seeded sample of query kinds, asked on every handle
     (histories ending in a mutator or a fork are judged too)."""
     qs = rng.sample(FAST_QUERIES, 6 if cfg["large"] else 10)
-    return audit_steps(len(sim.world), qs)
+    steps = []
+    for hi in range(len(sim.world)):
+        if sim.kw[hi]:
+            names = sorted(O.KW_QUERIES) + rng.sample(O.KW_SAFE, 3)
+        else:
+            names = qs
+        steps += [{"h": hi, "op": q, "audit": True} for q in names]
+    return steps
 
 
 class RunResult:
@@ -291,6 +307,48 @@ def template_run(verif_seed, index, stratum="template"):
         return next(state["rest"], None)
 
     return _drive(spec, A, stratum, index, producer, ref_mode)
+
+
+# ------------------------------- keyword-argument queries on another crystal
+KWP_FIRST = [None, "uc_mols"]
+KWP_KW = sorted(O.KW_QUERIES)
+KWP_FOLLOW = ["conn", "uc_mols", "sym_mols", "menv"]
+KWP_HOW = ["switch", "stranger"]  # how a default-argument recomputation is provoked afterwards
+N_KWPAIRS = 2 * len(KWP_FIRST) * len(KWP_KW) * len(KWP_FOLLOW) * len(KWP_HOW)
+
+
+def kwpair_run(verif_seed, index, stratum="kwpairs"):
+    """A look-alike crystal is queried with non-default keyword arguments
+    (tolerance, covalent radii); afterwards default-argument queries that must
+    recompute (after a setting switch, or on a third crystal) and the keyword
+    query itself must still match their fresh counterparts: an option passed
+    for one crystal must not become anybody's default."""
+    rng = random.Random(run_seed(verif_seed, stratum, index))
+    i = index % N_KWPAIRS
+    i, how = divmod(i, len(KWP_HOW))
+    i, fo = divmod(i, len(KWP_FOLLOW))
+    i, kq = divmod(i, len(KWP_KW))
+    i, fi = divmod(i, len(KWP_FIRST))
+    spec = FORK3_SOURCES[i % 2]
+    A = gen_args(rng)
+    first, kwq, follow, how = KWP_FIRST[fi], KWP_KW[kq], KWP_FOLLOW[fo], KWP_HOW[how]
+    state = {"rest": None}
+
+    def producer(sim, fb):
+        if state["rest"] is None:
+            choice = sim.world[0].space_group.choice
+            other = "toR" if choice == "H" else "toH"
+            steps = [{"h": 0, "op": first}] if first else []
+            steps += [{"h": 0, "op": "stranger_kw"}, {"h": 1, "op": kwq}]
+            if how == "switch":
+                steps += [{"h": 0, "op": other}, {"h": 0, "op": follow}]
+            else:
+                steps += [{"h": 0, "op": "stranger"}, {"h": 2, "op": follow}]
+            steps += [{"h": 1, "op": kwq}, {"h": 1, "op": "uc_mols_kw"}, {"h": 0, "op": follow}, {"h": 0, "op": "conn"}]
+            state["rest"] = iter(steps)
+        return next(state["rest"], None)
+
+    return _drive(spec, A, stratum, index, producer, ref_mode_for(rng))
 
 
 # ------------------------------------------------ a large derived crystal
